@@ -55,6 +55,11 @@ inductive KOp
   | updateKernel (k : Nat)
   /-- `update_model_parameters(ps, ["values"])` = `update(values=ps[:num_supports])` -/
   | valuesParam (ps : List Rat)
+  /-- `update_model_parameters(ps)` with the default `dofs=None`: `"supports" in None` raises TypeError (known finding) -/
+  | paramsDefaultDofs
+  /-- `update_model_parameters(ps, dofs)` with `"kernel"` among the dofs / `"all"`: `parameters[0]`, a number, becomes the
+  kernel; with data present the kernel matrix is re-assembled at once and calling the number raises TypeError (known finding) -/
+  | paramsKernelDof
   deriving DecidableEq, Repr
 
 /-- `setup_kernel_problem` -/
@@ -124,6 +129,10 @@ def optKernel (st : KState) : Option Nat → Except Err KState
 def step (st : KState) : KOp → Except Err KState
   | .updateKernel k => setKernel st k
   | .valuesParam ps => refresh { st with values := some (ps.take st.numSupports) }
+  | .paramsDefaultDofs => .error .type
+  | .paramsKernelDof => match st.cache with
+    | some _ => .error .type
+    | none => .ok st  -- no data yet: the number is stored silently; the failure comes with the first evaluation (not modelled)
   | .update k? s? v? append =>
     match optKernel st k? with
     | .ok st1 => refresh (assignValues (assignSupports st1 s? append) v? append)
